@@ -3126,13 +3126,17 @@ impl Block {
         // for the hash-comparison to work.
         //
         if cv.ft_num > 0 {
+            if cv.ft_num > 1 {
+                error!("ERROR 48204: block has more than one fee transaction");
+                return false;
+            }
+            if cv.gt_index.is_none() {
+                error!("ERROR 48203: block has fee transaction but no golden ticket");
+                return false;
+            }
             if let (Some(ft_index), Some(fee_transaction_expected)) =
                 (cv.ft_index, cv.fee_transaction)
             {
-                if cv.gt_index.is_none() {
-                    error!("ERROR 48203: block has fee transaction but no golden ticket");
-                    return false;
-                }
 
                 //
                 // the fee transaction is hashed to compare it with the one in the block
